@@ -75,6 +75,8 @@ def run(tier, seed, replay):
     rng = random.Random(seed)
     nt, n = (4, 400) if tier == "quick" else (32, 900)
     traces = [vlib.run_scenario(hostile_trace(rng, n), "c13-%d" % i)[0] for i in range(nt)]
+    # one LONG history on a single machine (state that accumulates over thousands of calls and many loads)
+    traces.append(vlib.run_scenario(hostile_trace(rng, 2500 if tier == "quick" else 9000), "c13-longhist")[0])
     # the longest instructions with a key interrupt pending, stepped in assembly mode (instruction + interrupt entry in one call)
     from checks import c11
     traces.append(vlib.run_scenario(c11.long_instruction_trace(), "c13-long")[0])
